@@ -51,8 +51,31 @@ def _outcomes(fail_heavy):
 def actions(weights, fail_heavy=False, bodies=False):
     """weights: dict action-kind -> relative weight."""
     body = st.sampled_from(['', '', 'c3a9c3a80d0a2e0d0a', '00ff0d0a0d0a46726f6d20780d0a', '2e2e0d0a'])
-    enq = st.fixed_dictionaries({'n': st.integers(1, 4), 'sender': st.sampled_from([True, True, True, False]),
-                                 'body': body if bodies else st.just('')}).map(lambda d: ['enqueue', d])
+    if bodies:
+        import re as _re
+        from vf.props import c20
+
+        def _block(t):
+            block = _re.sub(br'\r?\n', b'\r\n', t[0]) + b'\r\n'
+            # the engine adds From and X-Tag itself
+            lines = [l for l in block.split(b'\r\n') if l]
+            keep = []
+            skip = False
+            for l in lines:
+                if l[:1] in (b' ', b'\t'):
+                    if not skip:
+                        keep.append(l)
+                    continue
+                skip = l.split(b':')[0].strip().lower() in (b'x-tag', b'from')
+                if not skip:
+                    keep.append(l)
+            return (b'\r\n'.join(keep) + b'\r\n').hex() if keep else ''
+        blocks = st.one_of(st.just(''), c20.structured_case().map(_block))
+        enq = st.fixed_dictionaries({'n': st.integers(1, 8), 'many': st.just(True), 'sender': st.sampled_from([True, True, True, False]),
+                                     'body': body, 'block': blocks}).map(lambda d: ['enqueue', d])
+    else:
+        enq = st.fixed_dictionaries({'n': st.integers(1, 4), 'sender': st.sampled_from([True, True, True, False]),
+                                     'body': st.just('')}).map(lambda d: ['enqueue', d])
     rel = st.tuples(st.integers(0, 7), _outcomes(fail_heavy)).map(lambda t: ['release', t[0], t[1]])
     choices = {
         'enqueue': enq,
